@@ -3,3 +3,4 @@ import FhVerif.Props.C32
 import FhVerif.Props.C30
 import FhVerif.Props.C26
 import FhVerif.Props.C24
+import FhVerif.Props.C28
